@@ -91,6 +91,8 @@ def generate(rng, idx, tier, variant):
     for nm in rng.sample(names, rng.randint(0, min(2, len(names)))):
         init_kw[nm] = {'via': rng.choice(handles[nm]), 'v': [float(rng.randrange(1, 50)) for _ in range(n)] if rng.random() < 0.6 else float(rng.randrange(1, 50))}
     spec = {'span': sp, 'model': model, 'aliases': [[k_, v_] for k_, v_ in al.items()], 'topology': topo, 'preferred': pref, 'init_kw': init_kw, 'strict': rng.random() < 0.3}
+    if sp['type'] in ('list_str', 'list_int', 'list_mixed', 'list_numstr', 'list_date') and rng.random() < 0.25:
+        spec['cbspan'] = True  # a span whose label lookup runs user code (it may replace a series while a label write is half-way)
     # how the object comes into being: plain constructor or from_dataframe; directly on (AliasMixin, Base) or as a subclass
     # of another alias-enabled class (with other aliases) that may already have been instantiated in this process
     spec['route'] = rng.choice(['init', 'init', 'from_dataframe']) if sp['type'] != 'list_mixed' else 'init'
@@ -124,6 +126,12 @@ def generate(rng, idx, tier, variant):
                 op['value'] = {'k': 'seq', 'c': rng.choice(['list', 'tuple', 'ndarray']), 'len': 'n', 'e': 'float', 'base': base}
             else:
                 op['value'] = {'k': 'seq', 'c': 'list', 'len': rng.choice(['n+1', 'n-1']), 'e': 'float', 'base': base}
+            others = [x_ for x_ in names if x_ != nm]
+            if r >= 0.4 and r < 0.85 and rng.random() < 0.2:
+                # the right-length value is a lazily read data source that, while it is being read, uses the object it is
+                # being assigned to (re-entrant use) - through an alias on the aliased twin, through the name on the other
+                nm2 = rng.choice(others) if others else nm
+                op['cb'] = {'what': rng.choice(['w_attr', 'w_attr', 'w_item', 'toggle_strict', 'see_strict', 'adhoc_attr', 'copy_strict', 'read']), 'name2': nm2, 'via2': rng.choice(handles[nm2]), 'mode': rng.choice(['len', 'getitem', 'array'])}
         elif kind == 'setitem_label':
             op.update({'pos': rng.randrange(n), 'form': rng.choice([0, 1]), 'value': {'k': 'scalar', 'e': 'float', 'base': base}})
         elif kind == 'setitem_slice':
@@ -195,6 +203,78 @@ def _series(obj):
     return {nm: d.get('_' + nm) for nm in d['index']}  # (None where the index names something that has no storage)
 
 
+class CallbackSpan(list):
+    """A list of labels whose lookup runs the user's code first (a span that loads history lazily on first lookup, say)."""
+
+    cb = None
+
+    def index(self, *args):
+        fn, self.cb = self.cb, None
+        if fn is not None:
+            fn()
+        return super().index(*args)
+
+
+def _span(spec):
+    sp_ = spans.make_span(spec['span'])
+    return CallbackSpan(sp_) if spec.get('cbspan') and isinstance(sp_, list) else sp_
+
+
+class TwinSource:
+    """A sequence-like data source (only __len__ / __getitem__, or __array__) that runs a callback while it is read."""
+
+    def __init__(self, items, mode, fn):
+        self.items, self.mode, self.fn, self.done = items, mode, fn, False
+
+    def _cb(self):
+        if not self.done:
+            self.done = True
+            self.fn()
+
+    def __len__(self):
+        if self.mode == 'len':
+            self._cb()
+        return len(self.items)
+
+    def __getitem__(self, i):
+        if isinstance(i, slice):
+            return [self[j] for j in range(*i.indices(len(self.items)))]
+        if i < 0:
+            i += len(self.items)
+        if not 0 <= i < len(self.items):
+            raise IndexError(i)
+        if self.mode != 'len' and (i == 1 or len(self.items) == 1):
+            self._cb()
+        return self.items[i]
+
+
+def _twin_callback(obj, cb, handle, seen, val):
+    """The same use of the object on both twins: through `handle` (an alias on the aliased one, the name on the other)."""
+
+    def fn():
+        try:
+            what = cb['what']
+            if what == 'w_attr':
+                setattr(obj, handle, val)
+            elif what == 'w_item':
+                obj[handle] = val
+            elif what == 'toggle_strict':
+                obj.strict = not obj.strict
+            elif what == 'see_strict':
+                seen.append(bool(obj.strict))
+            elif what == 'adhoc_attr':
+                obj.adhoc_note = 1
+            elif what == 'copy_strict':
+                seen.append(bool(obj.copy().strict))
+            else:
+                seen.append(canon(np.asarray(obj[handle]).tolist()))
+            seen.append('ok')
+        except Exception as e:
+            seen.append(type(e).__name__)
+
+    return fn
+
+
 def _traces_equal(A, K):
     ta, tk = A.__dict__.get('_trace'), K.__dict__.get('_trace')
     if ta is None or tk is None:
@@ -254,7 +334,7 @@ def execute(schedule, ctx):
     def construct_A():
         if route == 'from_dataframe':
             return mixed.from_dataframe(frame(kwA), strict=spec['strict'])
-        return mixed(spans.make_span(spec['span']), strict=spec['strict'], **kwA)
+        return mixed(_span(spec), strict=spec['strict'], **kwA)
 
     lb = probes.LineBudget([REPO + '/fsic'], limit=BUDGET, mode='stop')
     try:
@@ -285,7 +365,7 @@ def execute(schedule, ctx):
     if route == 'from_dataframe':
         K = base.from_dataframe(frame(kwK), strict=spec['strict'])
     else:
-        K = base(spans.make_span(spec['span']), strict=spec['strict'], **kwK)
+        K = base(_span(spec), strict=spec['strict'], **kwK)
     chk('construction/succeeds', errA is None, {'exc': type(errA).__name__ if errA else None, 'msg': str(errA)[:200] if errA else None, 'aliases': al, 'kw': list(kwA)})
     if A is None:
         ctx.outcome('construct', 'raised')
@@ -356,13 +436,43 @@ def execute(schedule, ctx):
 
         if kind in ('setattr', 'setitem'):
             v = RC.make_value(op['value'], n)
+            vA = vK = v
+            seenA, seenK = [], []
+            if op.get('cb') and isinstance(v, (list, tuple, np.ndarray)) and len(v) == n and op['cb']['name2'] != nm:
+                cb = op['cb']
+                vA = TwinSource(list(v), cb['mode'], _twin_callback(A, cb, NS(cb['via2']), seenA, 9000.0 + step))
+                vK = TwinSource(list(v), cb['mode'], _twin_callback(K, cb, NS(cb['name2']), seenK, 9000.0 + step))
+                ctx.probe('re-entrant-operand-on-both-twins:' + cb['what'])
+                ctx.fault('callback-into-library')
             if kind == 'setattr':
-                ra, rk = both(lambda: setattr(A, via, v), lambda: setattr(K, nm, v))
+                ra, rk = both(lambda: setattr(A, via, vA), lambda: setattr(K, nm, vK))
             else:
-                ra, rk = both(lambda: A.__setitem__(via, v), lambda: K.__setitem__(nm, v))
+                ra, rk = both(lambda: A.__setitem__(via, vA), lambda: K.__setitem__(nm, vK))
+            if vA is not vK:
+                # what the data source met when it used the object half-way through the assignment is the same on both
+                chk('re-entrant/callback-meets-the-same-object', seenA == seenK, {'aliased': seenA[:4], 'canonical': seenK[:4], 'what': op['cb']['what']})
+                chk('re-entrant/strict-same-as-twin', bool(A.__dict__['_strict']) == bool(K.__dict__['_strict']), {'aliased': bool(A.__dict__['_strict']), 'canonical': bool(K.__dict__['_strict'])})
+                for obj in (A, K):
+                    obj.__dict__.pop('adhoc_note', None)
+                    if 'adhoc_note' in obj.__dict__.get('_attributes', []):
+                        obj.__dict__['_attributes'].remove('adhoc_note')
         elif kind == 'setitem_label':
             v = RC.make_value(op['value'], n)
             lab = spans.label_forms(spec['span'], span, op['pos'] % n, op['form'])
+            if isinstance(A.__dict__['span'], CallbackSpan) and isinstance(K.__dict__['span'], CallbackSpan):
+                # looking the label up replaces the whole series (equal values, a new array): the write must still land
+                def rebind(obj, handle):
+                    def fn():
+                        try:
+                            setattr(obj, handle, [float(x_) for x_ in np.asarray(obj[handle]).tolist()])
+                        except Exception:
+                            pass
+                    return fn
+
+                A.__dict__['span'].cb = rebind(A, via)
+                K.__dict__['span'].cb = rebind(K, nm)
+                ctx.probe('label-lookup-replaces-the-series')
+                ctx.fault('callback-into-library')
             ra, rk = both(lambda: A.__setitem__((via, lab), v), lambda: K.__setitem__((nm, lab), v))
         elif kind == 'setitem_slice':
             v = RC.make_value(op['value'], n)
